@@ -68,9 +68,29 @@ structure FieldTable where
   zeroed : Seg → Bool
   registry : Seg → Option String
   utxo : Seg → Bool
+  /-- the field's declared type has a hand-written (non-derived) `CompressibleBy`/`DecompressibleBy` pair whose bodies,
+  as extracted by the translator, do NOT compose to the identity: the model refuses to compress such a field -/
+  unmodelled : Seg → Bool
+
+/-- do the two extracted body kinds of a hand-written impl compose to the identity? (`bits`/`from_bits_truncate`:
+bitflags keeps every declared flag; `elementwise`: element i ↦ element i, same order) -/
+def pairRoundTrips (ck dk : String) : Bool :=
+  (ck == "identity" && dk == "identity") || (ck == "bits" && dk == "from_bits_truncate") ||
+  (ck == "elementwise" && dk == "elementwise")
+
+/-- the hand-written impl pair for a declared field type (`Word` is `u64`) -/
+def handImplFor (ty : String) : Option (String × String × String) :=
+  let ty' := if ty == "Word" then "u64" else ty
+  Gen.Fields.handImpls.find? (fun h => h.1 == ty')
 
 /-- the table regenerated from the Rust sources -/
 def genTable : FieldTable where
+  unmodelled s :=
+    match Gen.Fields.compressFields.find? (fun r => r.1 == s.1 && r.2.1 == s.2) with
+    | some r => match handImplFor r.2.2.2.2 with
+      | some h => !pairRoundTrips h.2.1 h.2.2
+      | none => false
+    | none => false
   skip s := Gen.Fields.compressFields.any (fun r => r.1 == s.1 && r.2.1 == s.2 && r.2.2.1)
   restored s := Gen.Fields.handDecompress.any (fun r => r.1 == s.1 && r.2.1 == s.2 && r.2.2 == "ctx")
   zeroed s := Gen.Fields.zeroed.any (fun r => r.1 == s.1 && r.2 == s.2)
@@ -80,13 +100,14 @@ def genTable : FieldTable where
 /-- the first skipped segment on the path, if any (a field is dropped when it or an ancestor is skipped) -/
 def skipSeg (T : FieldTable) (l : Leaf) : Option Seg := l.path.find? T.skip
 
-inductive Mode | normal | skipDefault | skipRestored | registry (ks : String) | utxo
+inductive Mode | normal | skipDefault | skipRestored | registry (ks : String) | utxo | unmodelled
   deriving DecidableEq, Repr
 
 def mode (T : FieldTable) (l : Leaf) : Mode :=
   match skipSeg T l with
   | some s => if T.restored s then .skipRestored else .skipDefault
   | none =>
+    if l.path.any T.unmodelled then .unmodelled else
     match l.path.findSome? T.registry with
     | some ks => .registry ks
     | none => if l.path.any T.utxo then .utxo else .normal
@@ -136,6 +157,7 @@ def compressLeaf (c : C) (l : Leaf) : Except String (CLeaf × C) :=
   | .normal => .ok (.val l.val, c)
   | .skipDefault => .ok (.skipped, c)
   | .skipRestored => .ok (.skipped, c)
+  | .unmodelled => .error "unmodelled hand-written impl"
   | .registry ks =>
     match ops.regCompress c ks l.val with
     | .ok (k, c') => .ok (.key ks k, c')
